@@ -16,7 +16,7 @@ from typing import Any, Callable
 
 from . import results as R
 from . import scenario as S
-from .seams import HarnessError, SimCrash, World, rng_snapshot, wrap_method
+from .seams import BudgetExceeded, HarnessError, SimCrash, World, rng_snapshot, wrap_method
 
 
 def sha(b: bytes | None) -> str:
@@ -202,6 +202,9 @@ def run_incarnation(
         except SimCrash as e:
             out.error = e
             out.error_site = "SimCrash"
+        except BudgetExceeded as e:  # the liveness budget of this incarnation ran out
+            out.error = e
+            out.error_site = "BudgetExceeded"
         except Exception as e:  # the SUT (or pulser underneath it) raised
             if raised_by_harness(e):
                 raise HarnessError(f"exception raised inside the harness during a SUT call: {e!r}") from e
